@@ -239,6 +239,7 @@ class GptRank:
                 symmetry_aware=cfg.symmetry,
                 data_parallel_group=self.groups['dp'],
                 model_parallel_group=self.groups['mp'],
+                pipeline_parallel_group=self.groups.get('pp'),
                 update_factors_in_hook=cfg.in_hook,
                 factor_checkpoint_dir=cfg.gpt.get('ckpt_dir'),
             )
@@ -336,6 +337,14 @@ def make_groups(rank: int, D: int, M: int, P: int = 1) -> dict[str, Any]:
                 gp = dist.new_group(rs)
                 if rank in rs:
                     out['dp'] = gp
+        out['pp'] = None
+        if P > 1:
+            # DeepSpeed's pipe-parallel groups: same (data, model) coordinate
+            for dm in range(D * M):
+                rs = [p * D * M + dm for p in range(P)]
+                gp = dist.new_group(rs)
+                if rank in rs:
+                    out['pp'] = gp
     return out
 
 
@@ -505,6 +514,28 @@ def compare(cfg: kaisa.Config, hist: list[dict[str, Any]],
         add('raise', 0, 'some rank did not finish')
         return {'mismatches': mism, 'stats': stats}
     NAMES_ = names_of(g)
+    # with several pipeline stages the clip factor of C07 is ONE scalar for
+    # the whole model: sum the stages' inner products first
+    vg_total: dict[int, float] = {}
+    if P > 1:
+        for stage in range(P):
+            base = stage * D * M
+            it0 = build_interp(cfg, seed, ex['caps'], stage)
+            snames = [(k, v) for k, v in names_of(g).items()
+                      if k in stage_layout(g, stage)]
+            for i, rec in enumerate(hist):
+                if rec['act'] != 'step' or not rec['x']['grad']['nu']['on']:
+                    continue
+                o = [ex['recs'][r][i] for r in range(base, base + M)]
+                raw = {}
+                for key, lname in snames:
+                    for pn in ('weight', 'bias'):
+                        k = f'{key}.{pn}'
+                        if k in o[0]['pre_grads']:
+                            raw[f'{lname}.{pn}'] = assemble(
+                                k, [o[m]['pre_grads'][k] for m in range(M)])
+                _, inf = it0.grads(rec['x']['grad'], raw)
+                vg_total[i] = vg_total.get(i, 0.0) + inf.get('vg', 0.0)
     for stage in range(P):
       base = stage * D * M
       interp = build_interp(cfg, seed, ex['caps'], stage if P > 1 else None)
@@ -564,16 +595,32 @@ def compare(cfg: kaisa.Config, hist: list[dict[str, Any]],
                                           f'replicas 0 and {d}')
                         break
             want, info = interp.grads(x['grad'], raws[0])
-            if info['nu'] < 1.0:
-                stats['nu_active'] += 1
+            nu_stage = info['nu']
+            nu_ref = nu_stage
+            if P > 1 and i in vg_total:
+                import math
+                tot = vg_total[i]
+                nu_ref = 1.0 if tot == 0.0 else min(
+                    1.0, math.sqrt(info['kl'] / abs(tot)))
+            if nu_ref < 1.0:
+                stats['nu_active'] += int(stage == 0)
             tol = TOL_GRAD * max(1.0, info['cond'] / 50)
             for k, wv in want.items():
-                e = rel(fulls[0][k], wv)
+                ref = wv * (nu_ref / nu_stage)
+                e = rel(fulls[0][k], ref)
                 stats['max_grad_err'] = max(stats['max_grad_err'], e / tol)
                 if e > tol:
-                    add('grad', i, f'{k}: assembled shards differ from the '
-                                   f'unsharded layer\'s gradient: rel {e:.3e} '
-                                   f'(nu={info["nu"]:.4g})')
+                    if nu_ref != nu_stage and rel(fulls[0][k], wv) <= tol:
+                        # exactly the per-stage clip factor: one scalar per
+                        # pipeline stage instead of one for the whole model
+                        add('pipeline_clip', i,
+                            f'{k}: stage {stage} applies its own clip factor '
+                            f'{nu_stage:.4g}; the factor of the whole model '
+                            f'is {nu_ref:.4g}')
+                    else:
+                        add('grad', i, f'{k}: assembled shards differ from '
+                            f'the unsharded layer\'s gradient: rel {e:.3e} '
+                            f'(nu={nu_ref:.4g})')
         elif act == 'save' and hist[i]['arg'] and stage == 0:
             stats['saves'] += 1
             # every rank of EVERY stage holds the factors of all layers of
